@@ -63,6 +63,14 @@ def run(ctx):
         _replay(ctx, items, 'graph ' + gcfg)
         ctx.cov['exhaustive'] = True
         del g
+        # undo/redo-heavy words (deep interleavings across the command that created a group)
+        ucfg = 'GEN_Commands_undo.cfg'
+        res, g = tlc.dump_graph(wd, 'MC_Commands.tla', ucfg, timeout=3000)
+        ctx.add_tlc('E1 generation ' + ucfg, res, ucfg)
+        items = _items([[g.state(n) for n in p] for p in g.behaviours()], 3)
+        ctx.check_ops(ucfg, items, ['Do', 'Undo', 'Redo'])
+        _replay(ctx, items, 'graph ' + ucfg)
+        del g
         n, depth = (400, 30) if quick else (8000, 50)
         res, behs = tlc.simulate(wd, 'MC_Commands.tla', 'SIM_Commands.cfg', num=n, depth=depth, seed=ctx.seed + 1,
                                  timeout=3000)
